@@ -2,7 +2,8 @@
 C01 / C03 — executable model of `Experiment.run` (coba/experiments/core.py, process.py,
 coba/multiprocessing.py, coba/results/core.py TransactionResult) and the spec `resultS`.
 
-Import-free (core Lean only): this file is compiled into the drivers `drv_c01` / `drv_c03`.
+Core Lean only (plus, since phase 4, the finished model `Model/C06` of SequentialCB): this file is compiled into the
+drivers `drv_c01` / `drv_c03`.
 
 Reading of the code
 * objects (environments, learners, evaluators) are identities `Nat`; a triple is `(e,l,v)`.
@@ -15,6 +16,8 @@ Reading of the code
   fresh heap (`c.init`), sharing survives only inside the chunk.
 * a schedule is a list of picks that interleaves the record streams of the chunks.
 -/
+
+import CobaVerif.Model.C06
 
 namespace Coba.C01
 
@@ -525,5 +528,74 @@ earlier run (in any order): the new records are appended, the whole log is read 
 def runResumed {S P Row} (c : Comps S P Row) (cfg : Cfg) (picks : List Nat) (seed : Nat) (ts : List Triple)
     (old : List (Rec P Row)) : Result P Row :=
   result (Rec.T0 (metaOf seed ts) :: (old ++ (runEventsOn c cfg picks seed (resumedTasks old ts)).1.filterMap Ev.rec?))
+
+/-! ## phase 4 (a): resumed runs with process state
+
+The resumed layer of phase 3 threaded no process state.  Here the tasks a resumed run still has to do are
+processed exactly like those of a fresh run in the process-state model: in-process on the caller's process
+state `σ`, on workers per lifetime from `σ0` (any chunk-to-worker assignment, retirement after `mc` chunks),
+un-copyable shared learners raise inside the per-task `try`. -/
+
+def chunksOnP {G S P Row} (cp : CompsP G S P Row) (cfg : Cfg) (tasks : List Task) : List (List Task) :=
+  (chunkTasks cfg.mt cp.chunkKey tasks).map procOrder
+
+/-- events of processing an arbitrary task list in the process-state model, started in a process whose state is `σ` -/
+def runEventsOnPFrom {G S P Row} (cp : CompsP G S P Row) (cfg : Cfg) (sched : Sched) (seed : Nat) (σ : G)
+    (tasks : List Task) : List (Ev P Row) × (G × Heap S) :=
+  if cfg.multi then
+    let lives := retire cfg.mc (livesOf sched.assign (chunksOnP cp cfg tasks))
+    (interleave (lives.flatMap (fun life => (runLifeP cp seed cp.σ0 life).1)) sched.picks, (σ, cp.init))
+  else
+    runSeqP cp seed (σ, cp.init) (chunksOnP cp cfg tasks).flatten
+
+/-- `runResumed` with process state: the Result of a run resumed from the log `old`, started in a process in state `σ` -/
+def runResumedPFrom {G S P Row} (cp : CompsP G S P Row) (cfg : Cfg) (sched : Sched) (seed : Nat) (σ : G)
+    (ts : List Triple) (old : List (Rec P Row)) : Result P Row :=
+  result (Rec.T0 (metaOf seed ts) ::
+    (old ++ (runEventsOnPFrom cp cfg sched seed σ (resumedTasks old ts)).1.filterMap Ev.rec?))
+
+def runResumedP {G S P Row} (cp : CompsP G S P Row) (cfg : Cfg) (sched : Sched) (seed : Nat)
+    (ts : List Triple) (old : List (Rec P Row)) : Result P Row := runResumedPFrom cp cfg sched seed cp.σ0 ts old
+
+/-! ## phase 4 (b): the built-in evaluator `SequentialCB` as the evaluation component
+
+`Model/C06.evaluate` is the model of `SequentialCB(record, learn, eval).evaluate(env, learner)` (validation, the
+predict / score / learn passes per batch, the recorded row).  A `SeqWorld` says which `SequentialCB` configuration
+every evaluator object has, which `predict / score / learn` functions and pristine state every learner object has,
+and which interactions a read of every environment object yields (or that the read raises).  `seqComps` plugs this
+into `Comps`: `eval v e (l, s) seed` is `C06.evaluate (cfgOf v) (learner l) (batch e) (rows of e) s`; a validation
+reject (`CobaException`), a crash inside the evaluation and a failing read are the task's exception.  The learner
+state carries the identity of its object (as in `CompsP.clean`).  The seed is not used: this is the deterministic
+path (learners answering with an action [+ probability]; PMF answers draw from `CobaRandom(seed)`, C05/C06 `wrapPmf`). -/
+
+structure SeqWorld (σ V R P : Type) where
+  envParams : Nat → Except Err P
+  lrnParams : Nat → Except Err P
+  valParams : Nat → Except Err P
+  chunkKey  : Nat → Option Nat
+  valSeed   : Nat → Option Nat
+  cfgOf     : Nat → Coba.C06.Config                       -- evaluator object ↦ SequentialCB(record, learn, eval)
+  learner   : Nat → Coba.C06.Learner σ V                  -- learner object ↦ its methods
+  init      : Nat → σ                                     -- … and its pristine state
+  envRows   : Nat → Except Err (List (Coba.C06.Dict (Coba.C06.Fld V R)))   -- what a read yields / raises
+  batch     : Nat → Option Nat                            -- batch size when the environment is batched
+
+def seqOutcome {σ V R : Type} (ls : Nat × σ) :
+    Coba.C06.Outcome (σ × List (Coba.C06.Call V) × List (Coba.C06.Row V R)) →
+      Except Err (List (Coba.C06.Row V R)) × (Nat × σ)
+  | .ok r => (.ok r.2.2, (ls.1, r.1))
+  | .rejected _ => (.error .raised, ls)
+  | .crashed _ => (.error .raised, ls)
+
+def seqEval {σ V R P : Type} [DecidableEq V] [Coba.C06.RewardFn R V] (w : SeqWorld σ V R P)
+    (v e : Nat) (ls : Nat × σ) (_seed : Nat) : Except Err (List (Coba.C06.Row V R)) × (Nat × σ) :=
+  match w.envRows e with
+  | .error _ => (.error .raised, ls)
+  | .ok rows => seqOutcome ls (Coba.C06.evaluate (w.cfgOf v) (w.learner ls.1) (w.batch e) rows ls.2)
+
+def seqComps {σ V R P : Type} [DecidableEq V] [Coba.C06.RewardFn R V] (w : SeqWorld σ V R P) :
+    Comps (Nat × σ) P (Coba.C06.Row V R) :=
+  { envParams := w.envParams, lrnParams := w.lrnParams, valParams := w.valParams, chunkKey := w.chunkKey,
+    init := fun l => (l, w.init l), valSeed := w.valSeed, eval := seqEval w }
 
 end Coba.C01
